@@ -85,6 +85,7 @@ static struct acq_ghost
     /* sink channel per stream */
     int accept[2];
     int n_accept_calls[2];
+    int n_refuse[2]; /* accept_writes(ch, 0) calls: this call is an abort */
     /* monitor reader per stream: abstract unread path (0..2 intervals left) */
     int mon_intervals[2];
     int mon_mapped[2];
@@ -429,6 +430,13 @@ thread_join_impl(const int s, const int k)
         if (!will_end)
             ag.hang++;
         VASSERT(will_end, "[C07.join-only-terminating-workers] a worker is joined that nobody has told (or will tell) to stop: stop/abort would not return");
+        /* the source and the filter write into the sink channel: a writer asleep on a full
+         * ring (the client holds its data) is released by the refuse signal only, and stays
+         * released only while the channel keeps refusing (channel_write_map re-tests the
+         * flag after waking) */
+        if (k == 0 || k == 1)
+            VASSERT(!(ag.n_refuse[s] > 0 && ag.accept[s] == 1),
+                    "[C07.refused-until-writers-joined] abort re-accepted writes on the sink channel before a worker that writes into it (source, filter) was joined: a writer asleep on a full ring is not released and the join never returns");
         /* exit path of the worker bodies (source.thread / sink.thread / filter.thread units):
          * flags cleared, device stopped, reader unmapped */
         if (k == 0) {
@@ -505,9 +513,13 @@ channel_accept_writes(struct channel* self, uint32_t tf)
     if (self == &V_(0).sink.in) {
         ag.accept[0] = tf ? 1 : 0;
         ag.n_accept_calls[0]++;
+        if (!tf)
+            ag.n_refuse[0]++;
     } else if (self == &V_(1).sink.in) {
         ag.accept[1] = tf ? 1 : 0;
         ag.n_accept_calls[1]++;
+        if (!tf)
+            ag.n_refuse[1]++;
     } else {
         VASSERT(0, "[C07.refuse-only-sink-channel,C04.streams-do-not-mix] accept/refuse is applied to a stream's sink channel");
     }
